@@ -33,3 +33,42 @@ CHECKS["C10"] = (MC, "TLA+ spec CombDeps (signal-level dependency graph of the s
     "rule-following designs (readiness reads run() only of bodies declared earlier) have an acyclic model dependency graph (TLC) and an acyclic real netlist (Amaranth bit-level check); negative controls show the detector fires", CORE_NOTE, "5 (C10)")
 CHECKS["C35"] = (MC, "profile cycles recorded from real simulations validated by TLC (ProfilerTrace over TxnCore) against independently sampled signals and the specification's conflict relation",
     "every profile cycle and the run/locked statistics are judged by TLC; the conflict relation comes from TxnCore!Derive", CORE_NOTE, "5 (C35)")
+comp("C14", "specs/lib/Queue.tla", "FIFO and BasicFifo as bounded queues")
+comp("C15", "specs/lib/WideQueue.tla (+ WideQueueMC.tla)", "WideFifo as a bounded queue with batched reads/writes")
+comp("C18", "specs/lib/Transformers.tla", "method transformers and connectors compute their documented function")
+comp("C19", "specs/lib/ReqRes.tla", "Serializer and ArgumentsToResultsZipper keep requests and responses matched")
+comp("C20", "specs/lib/Semaphore.tla", "Semaphore counts acquisitions")
+MEM_NOTE = ("Bounded constants (depth <= 16, width <= 4 bits, <= 3 ports); simultaneous writes to one row are excluded by the driver as the "
+            "property states; Amaranth's Python simulator is trusted; known findings (ILVT memories with granularity and >= 2 write ports) "
+            "are listed in known_findings.json.")
+comp("C21", "specs/lib/MemBank.tla (ideal-memory operators of MultiMem.tla)", "MemoryBank against an ideal memory over memory_type x transparent x read_on_resp x granularity x ports", MEM_NOTE)
+comp("C22", "specs/lib/AsyncMem.tla", "AsyncMemoryBank reads current contents")
+comp("C23", "specs/lib/MultiMem.tla (MultiMemMC.tla, MultiMemTrace.tla)", "multiport memories against an ideal synchronous memory", MEM_NOTE)
+comp("C24", "specs/lib/Cam.tla", "ContentAddressableMemory as a dictionary")
+comp("C25", "specs/lib/AllocPE.tla", "PriorityEncoderAllocator never double-allocates")
+comp("C26", "specs/lib/AllocOrder.tla", "PreservedOrderAllocator tracks allocation order")
+comp("C27", "specs/lib/AllocRing.tla", "CircularAllocator hands out identifiers in ring order")
+comp("C28", "specs/lib/Pipeline.tla (PipelineMC.tla, PipelineTrace.tla)", "PipelineBuilder pipelines are ordered, lossless and compute the composed stages")
+comp("C29", "specs/lib/Stream.tla", "stream adapters obey the ready/valid protocol")
+comp("C30", "specs/lib/BasicIO.tla", "InputSampler and OutputBuffer follow their trigger")
+comp("C31", "specs/lib/Metrics.tla", "HwCounter / TaggedCounter / HwExpHistogram registers against exact counting")
+comp("C32", "specs/lib/Latency.tla", "latency measurers record true latencies")
+comp("C33", "specs/obs/EvLog.tla (EvLogMC.tla, EvLogTrace.tla)", "event log capture, save/load, streaming reader, generated-design sampler and consumer order",
+     "Bounded constants; the generated design is exercised through VerilogDebugWrapper + GeneratedEvLogSampler with handles resolved in pysim (Yosys is absent, emitted Verilog is not checked); two known findings in known_findings.json.")
+comp("C34", "specs/obs/HwLog.tla (HwLogMC.tla, HwLogTrace.tla)", "hardware logs and assertions fire exactly when triggered")
+comp("C39", "specs/core/RoundRobin.tla (RoundRobinMC.tla, RoundRobinTrace.tla)", "RoundRobin arbiters grant a requester, one at a time, with bounded wait")
+comp("C42", "specs/util/DepManager.tla (DepManagerMC.tla)", "DependencyManager keys: single/list keys, caching, locking, defaults")
+EXPL = "exploration"
+def fn(pid, spec, what, ref="4.3, 5"):
+    CHECKS[pid] = (EXPL,
+        f"TLA+ definitions {spec}: laws of the definitions model-checked by TLC over the bounded input space; every function of the property is "
+        f"wrapped in a combinational module (or called), tabulated over its whole bounded input domain with the real code, and every row is judged by TLC against the definitions",
+        f"{what}: exhaustive tabulation of the implementation over the stated bounded domains with TLC as the oracle (exploration, exhaustive within bounds); no interleavings exist for pure functions.",
+        "Pure functions: widths <= 10 bits; domain restrictions where the docstrings are silent are named in notes/" + pid + ".md and not asserted.", ref)
+fn("C36", "specs/fn/Bits.tla (C36Rows.tla, C36Laws.tla)", "bit-manipulation helpers equal their documented functions")
+fn("C37", "specs/fn/Shifters.tla (C37Rows.tla, C37Laws.tla)", "shifters and rotators for offsets 0..width")
+fn("C38", "specs/fn/Encoders.tla (C38Rows.tla, C38Laws.tla)", "encoders, one-hot multiplexers and selecting networks")
+fn("C40", "specs/fn/Assign.tla (AssignMC.tla)", "assign raises exactly when it must and otherwise copies exactly the selected fields")
+fn("C41", "specs/fn/DataHelpers.tla (C41Rows.tla, C41Laws.tla)", "data helpers")
+NOT_APPLICABLE["C43"] = ("not claimed: no check was built for the testbench helpers (the TLA+ technique applies -- a call-protocol spec validated against "
+                         "recorded testbench traces -- but the work was not reached); nothing is asserted about C43")
